@@ -4,3 +4,4 @@ import Sp.Sink
 import Sp.Lineage
 import Sp.Tracklet
 import Sp.J
+import Sp.MockEdges
